@@ -245,7 +245,7 @@ func containsCall(e ast.Expr) bool {
 
 func isNonNilVal(v Value) bool {
 	switch v.Kind {
-	case VFuncLit, VBroadcast, VGetWaitCh, VMethodVal, VFunc:
+	case VFuncLit, VBroadcast, VGetWaitCh, VMethodVal, VFunc, VNonNil:
 		return true
 	}
 	return false
@@ -462,7 +462,7 @@ func (w *walker) store(lhs ast.Expr, val Value, node ast.Node, rhs ast.Expr, idx
 		if id, ok := unparen(lhs).(*ast.Ident); ok && id.Name != "_" {
 			if obj := w.identObj(id, fr); obj != nil {
 				bv := val
-				if w.isShared(obj) && !(val.Kind == VFuncLit && w.boundOnce[obj]) || tok != token.ASSIGN && tok != token.DEFINE {
+				if w.isShared(obj) && !(val.Kind == VFuncLit && w.isBoundOnce(obj)) || tok != token.ASSIGN && tok != token.DEFINE || val.Kind == VNonNil {
 					bv = Value{}
 				}
 				st.env = st.env.bind(obj, bv)
